@@ -6,6 +6,7 @@ import (
 	"net/url"
 	"strings"
 	"testing"
+	"time"
 
 	"github.com/istio-ecosystem/authservice/verif/sim"
 )
@@ -202,6 +203,16 @@ func c04Prop(c *sim.Case) {
 			{K: "crowd", B: b, B2: 1, N: 4 + sim.Tail(c, "cp.n", 10, 44), Arg: sim.PickStr(c, "cp.mode", "pending", "pending", "full", "start")}, {K: "callback", B: b}}
 		at := sim.Pick(c, "cp.at", len(ops)+1)
 		ops = append(ops[:at:at], append(pre, ops[at:]...)...)
+	}
+	if ho.o.Abs > 0 && sim.Weighted(c, "exchange-straddles-the-session-limit", 2, 1) == 1 {
+		// the provider takes its time over the code exchange and the session's absolute limit passes meanwhile; the
+		// callback is then replayed: whatever the first one left behind, a redeemed login is not redeemed again
+		b := sim.Pick(c, "straddle.b", 3)
+		slow := &sim.Behaviour{Name: "slow", Delay: time.Duration(10+sim.Pick(c, "straddle.delay", 50)) * time.Second}
+		pre := []op{{K: "nav", B: b, Target: "/slow"}, {K: "authorize", B: b}, {K: "advance", B: b, Rel: "abs", D: ho.o.Abs - 5*time.Second},
+			{K: "idp", Beh: slow, BehTag: "slow"}, {K: "callback", B: b}, {K: "attack", Att: "replay-callback", B: b, B2: b, Arg: "verbatim"}, {K: "nav", B: b, Target: "/slow"}}
+		ops = append(pre, ops...)
+		c.Class("exchange-straddles-the-session-limit")
 	}
 	if sim.Weighted(c, "cross-session-callback", 3, 1) == 1 {
 		// browser b's pending callback arrives in ANOTHER browser, whose cookie header also carries b's session id under
